@@ -8,7 +8,7 @@ use chrono::SecondsFormat;
 
 use crate::haystack::val::{
     Column, Coord, Date, DateTime, Dict, Grid, Marker, Na, Number, Ref, Remove, Symbol, Time, Uri,
-    Value as HVal, XStr,
+    Value as HVal, XStr, GRID_FORMAT_VERSION,
 };
 
 use serde::ser::{Serialize, SerializeMap, SerializeSeq, Serializer};
@@ -179,7 +179,12 @@ impl Serialize for Grid {
     fn serialize<S: Serializer>(&self, serializer: S) -> Result<S::Ok, S::Error> {
         let mut map = serializer.serialize_map(Some(4))?;
         map.serialize_entry("_kind", "grid")?;
-        if self.meta.is_some() {
+        if self.ver != GRID_FORMAT_VERSION {
+            // The grid version travels in the meta; a version other than the default has to be written to survive
+            let mut meta = self.meta.clone().unwrap_or_default();
+            meta.insert("ver".to_string(), HVal::make_str(&self.ver));
+            map.serialize_entry("meta", &meta)?;
+        } else if self.meta.is_some() {
             map.serialize_entry("meta", &self.meta)?;
         } else {
             map.serialize_entry("meta", &Dict::new())?;
